@@ -110,7 +110,7 @@ impl Default for DocOpts {
 
 const TEXT_BITS: &[&str] = &[
     "x", "text", " ", "\n", "\t", "  ", "&amp;", "&lt;", "&#65;", "&#x41;", ">", "]]>", "]", "'", "\"", "é", "日本", "-", "--", "?", "?>",
-    "=", "/", "!", "a b",
+    "=", "/", "!", "a b", "\u{c}", "\u{b}", "\u{85}", "\u{2028}", "x\u{c}", "\u{c} ",
 ];
 const ATTR_VAL_BITS: &[&str] = &[
     "v", "", " ", ">", "/>", "a>b", "</a>", "<a>", "<", "&amp;", "&quot;", "=", "x y", "é", "?", "--", "]]>", "/",
